@@ -417,3 +417,174 @@ def reachable(facts, roots):
                 if t not in seen:
                     work.append(t)
     return seen
+
+
+# ---------------------------------------------------------------- places and mutation
+
+def place(e):
+    """(root local id, root name, projection list) of a place expression, or None.
+    Projections: ('f', name) field, ('i', index expr) index, ('m', method) method-call result (e.g. get_mut)."""
+    proj = []
+    while e is not None:
+        k = e.get('k')
+        if k == 'AddrOf':
+            e = e['e']
+        elif k == 'Unary' and e['op'] == 'Deref':
+            e = e['e']
+        elif k == 'Field':
+            proj.append(('f', e['name']))
+            e = e['e']
+        elif k == 'Index':
+            proj.append(('i', e['i']))
+            e = e['e']
+        elif k == 'Block' and not e['stmts'] and e['expr'] is not None:
+            e = e['expr']
+        elif k == 'Path' and e['res'].get('k') == 'Local':
+            return e['res']['id'], e['res']['name'], list(reversed(proj))
+        else:
+            return None
+    return None
+
+
+def mutations(body, into_closures=True):
+    """Syntactic mutation sites: [(kind, place-expr, node)] with kind in assign / assignop / addr-mut / autoref-mut."""
+    out = []
+    for n in nodes(body, into_closures):
+        k = n.get('k')
+        if k == 'Assign':
+            out.append(('assign', n['l'], n))
+        elif k == 'AssignOp':
+            out.append(('assignop', n['l'], n))
+        elif k == 'AddrOf' and n.get('mut'):
+            out.append(('addr-mut', n['e'], n))
+        if n.get('mutborrow'):
+            out.append(('autoref-mut', n, n))
+    return out
+
+
+def same_expr(a, b):
+    """Structural equality of two expressions modulo references/clones (locals compared by binding id)."""
+    a, b = strip(a), strip(b)
+    if a is None or b is None:
+        return a is b
+    if a.get('k') != b.get('k'):
+        return False
+    k = a['k']
+    if k == 'Path':
+        ra, rb = a['res'], b['res']
+        if ra.get('k') == 'Local' and rb.get('k') == 'Local':
+            return ra['id'] == rb['id']
+        return ra.get('path') == rb.get('path') and ra.get('k') == rb.get('k')
+    if k == 'Lit':
+        return a['v'] == b['v']
+    if k == 'Field':
+        return a['name'] == b['name'] and same_expr(a['e'], b['e'])
+    if k == 'Index':
+        return same_expr(a['e'], b['e']) and same_expr(a['i'], b['i'])
+    if k == 'MethodCall':
+        return a['name'] == b['name'] and a.get('callee') == b.get('callee') and same_expr(a['recv'], b['recv']) and \
+            len(a['args']) == len(b['args']) and all(same_expr(x, y) for x, y in zip(a['args'], b['args']))
+    if k == 'Call':
+        return callee(a) == callee(b) and callee(a) is not None and len(a['args']) == len(b['args']) and \
+            all(same_expr(x, y) for x, y in zip(a['args'], b['args']))
+    if k == 'Binary':
+        return a['op'] == b['op'] and same_expr(a['l'], b['l']) and same_expr(a['r'], b['r'])
+    if k == 'Unary':
+        return a['op'] == b['op'] and same_expr(a['e'], b['e'])
+    if k in ('Tup', 'Array'):
+        return len(a['items']) == len(b['items']) and all(same_expr(x, y) for x, y in zip(a['items'], b['items']))
+    if k == 'Cast':
+        return a.get('ty') == b.get('ty') and same_expr(a['e'], b['e'])
+    return False
+
+
+def blocks(body):
+    """All statement lists (block bodies) in a function body, closures included."""
+    for n in nodes(body):
+        if n.get('k') == 'Block':
+            yield n, n['stmts'] + ([n['expr']] if n['expr'] is not None else [])
+
+
+def parent_map(body):
+    """id(node) -> (parent node, slot name) for every node under body."""
+    pm = {}
+    stack = [body]
+    while stack:
+        x = stack.pop()
+        for k, v in x.items():
+            if k in ('sp', 'ty', 'ety', 'res', 'ctor'):
+                continue
+            if isinstance(v, dict):
+                pm[id(v)] = (x, k)
+                stack.append(v)
+            elif isinstance(v, list):
+                for y in v:
+                    if isinstance(y, dict):
+                        pm[id(y)] = (x, k)
+                        stack.append(y)
+                    elif isinstance(y, list):
+                        for z in y:
+                            if isinstance(z, dict):
+                                pm[id(z)] = (x, k)
+                                stack.append(z)
+    return pm
+
+
+def ancestors(n, pm):
+    """[(ancestor, slot through which we descend)] from the nearest outwards."""
+    out = []
+    while id(n) in pm:
+        p, slot = pm[id(n)]
+        out.append((p, slot))
+        n = p
+    return out
+
+
+def range_bounds(e):
+    """(lo, hi, inclusive) of a range expression `lo..hi` / `lo..=hi` (Struct Range / RangeInclusive::new call)."""
+    e = strip(e)
+    if e.get('k') == 'Struct' and (e['ctor'].get('path') or '').endswith(('ops::Range', 'range::Range')):
+        d = dict((n, x) for n, x in e['fields'])
+        return d.get('start'), d.get('end'), False
+    if e.get('k') == 'Call' and (callee(e) or '').endswith('RangeInclusive::<Idx>::new'):
+        return e['args'][0], e['args'][1], True
+    if e.get('k') == 'Struct' and (e['ctor'].get('path') or '').endswith('RangeFrom'):
+        d = dict((n, x) for n, x in e['fields'])
+        return d.get('start'), None, False
+    return None
+
+
+def ctor_call(e, name):
+    """e is `Name(args)` for a std enum constructor (Some / Ok / Err): returns args or None."""
+    e = strip(e)
+    if e is not None and e.get('k') == 'Call':
+        c = callee(e) or ''
+        if c == name or c.endswith('::' + name):
+            return e['args']
+    return None
+
+
+def is_ctor_path(e, name):
+    e = strip(e)
+    p = def_path(e) if e is not None else None
+    return bool(p and (p == name or p.endswith('::' + name)))
+
+
+def vec_literal(e):
+    """items of a `vec![a, b, ..]` literal (macro-expanded into a boxed array call), or of an array literal"""
+    e = strip(e)
+    if e is None:
+        return None
+    if e.get('k') == 'Array':
+        return e['items']
+    if e.get('k') == 'Call' and from_macro(e):
+        c = callee(e) or ''
+        if 'into_vec' in c or 'box_assume_init' in c or c.endswith('Vec::<T>::new') or 'from_elem' in c:
+            if c.endswith('Vec::<T>::new'):
+                return []
+            arrs = [n for n in nodes(e) if n.get('k') == 'Array']
+            if len(arrs) >= 1:
+                return arrs[0]['items']
+    if e.get('k') == 'MethodCall' and e['name'] in ('to_vec', 'into_vec') and strip(e['recv']).get('k') == 'Array':
+        return strip(e['recv'])['items']
+    return None
